@@ -45,6 +45,7 @@ PROFILES = {
     "utils": dict(file="utils/utils.py", cls=None),
     "BaseFlowItem": dict(file="helper/baseflowitem.py", cls="BaseFlowItem"),
     "Pallet": dict(file="helper/pallet.py", cls="Pallet"),
+    "Item": dict(file="helper/item.py", cls="Item"),
 }
 
 
@@ -87,7 +88,9 @@ class NodeLib(LibBase):
         p = PROFILES[cls]
         f = {}
         if cls == "Pallet":
-            return {"items": ("list", IT)}
+            return dict(self.schema("BaseFlowItem"), items=("list", IT), flow_item_type=("str",))
+        if cls == "Item":
+            return dict(self.schema("BaseFlowItem"), flow_item_type=("str",))
         if cls == "BaseFlowItem":
             return {"timestamp_creation": ("opt", ("num", "real")), "source_id": ("obj", "nodeid"),
                     "timestamp_node_entry": ("opt", ("num", "real")), "timestamp_node_exit": ("opt", ("num", "real")),
@@ -299,7 +302,14 @@ class NodeLib(LibBase):
                 raise Unsupported("missing argument %s for %s" % (pn, name))
         if con.is_generator:
             return [(VGen(name, amap), st)]
-        return apply_contract(ex, con, amap, st, lineno, self, cls)
+        outs = apply_contract(ex, con, amap, st, lineno, self, cls)
+        if name == "update_state_rep" and cls == "Machine":
+            # ghost for I-fresh (C17): remember the worker list and the thread states this recount has seen
+            for r in outs:
+                s1 = r[1] if isinstance(r, tuple) else getattr(r, "state", None)
+                if s1 is not None and not isinstance(r[0] if isinstance(r, tuple) else None, Exc):
+                    s1.ghost["rep_base"] = (s1.heap_arr("thread_state"), s1.f["worker_thread_list"], s1.ghost.get("seg_id", 0))
+        return outs
 
     def consult(self, ex, dyn, how, st, node):
         s = st.fork()
@@ -309,7 +319,7 @@ class NodeLib(LibBase):
         return [(r, s)]
 
     def call_super(self, ex, name, args, st, lineno):
-        con = self.contracts["Node"]["__init__"]
+        con = self.contracts["BaseFlowItem" if ex.ctx.cls in ("Item", "Pallet") else "Node"]["__init__"]
         names = [p[0] for p in con.params]
         amap = {}
         for k, a in enumerate(args):
@@ -417,7 +427,7 @@ class NodeLib(LibBase):
                 return [Outcome("next", st)]       # attribute outside the modelled state (bookkeeping only)
             if isinstance(v, VObj) and v.kind == "proc":
                 return [Outcome("next", st)]       # a handle on a started process kept for later: bookkeeping only
-        if isinstance(v, SList) and v.ekind == ("any",) and attr in sch:
+        if isinstance(v, SList) and v.ekind == ("any",) and V.is_literally_empty(v) and attr in sch:
             kind = sch[attr]
             if kind[0] == "list":
                 st.f[attr] = V.list_empty(kind[1])
